@@ -52,6 +52,7 @@ func runC01(c *Ctx) {
 	genRound2(c)
 	adapterWritesOnError(c)
 	directiveArgAssertChecked(c)
+	swappedFieldArgs(c, "swapped-field-args", pkgGraphql)
 }
 
 // c01SelectionsPrivate: the merged sub-selection of a collected field is a slice private to that CollectFields call.  Fields
